@@ -9,6 +9,7 @@ import traceback
 from mirlib import AnchorMissing, Facts, Program
 
 VERIF = os.path.dirname(os.path.dirname(os.path.abspath(__file__)))
+EVIDENCE_DIR = os.environ.get("SWIMVERIFY_EVIDENCE_DIR", os.path.join(VERIF, "evidence"))
 
 
 class Rule:
@@ -123,7 +124,7 @@ def run_property(prop, module, tier, facts_dirs, digest, t0):
     for v in listed:
         out.append("KNOWN-FINDING: property=%s %s %s" % (prop, v["key"], known_keys[v["key"]].get("what", v["detail"])))
         v["verdict"] = "known-finding"
-    replay_dir = os.path.join(VERIF, "evidence", "replay")
+    replay_dir = os.path.join(EVIDENCE_DIR, "replay")
     for v in new:
         os.makedirs(replay_dir, exist_ok=True)
         h = hashlib.sha256(v["key"].encode()).hexdigest()[:12]
@@ -171,8 +172,8 @@ def run_property(prop, module, tier, facts_dirs, digest, t0):
         "wall_s": round(time.time() - t0, 2),
         "violations": len(new),
     }
-    os.makedirs(os.path.join(VERIF, "evidence"), exist_ok=True)
-    with open(os.path.join(VERIF, "evidence", prop + ".json"), "w") as f:
+    os.makedirs(EVIDENCE_DIR, exist_ok=True)
+    with open(os.path.join(EVIDENCE_DIR, prop + ".json"), "w") as f:
         json.dump(ev, f, indent=1)
     summary = "%s [%s] rules=%d instances=%d ok=%d known=%d violations=%d functions=%d wall=%.1fs" % (
         prop, tier, len(ctx.rules), len(instances), ok_n, len(listed), len(new), len(ctx.functions), time.time() - t0)
